@@ -54,6 +54,11 @@ type Scn struct {
 	Cols   int
 	Rows   int
 	Frames []Frame
+	// TermID: the name the terminal gives in its XTVERSION reply ("" = none); DA1Class: the service class
+	// (first parameter) of its DA1 reply (0 = 62). Neither advertises a feature, except that "tmux 3.4" is
+	// known to implement Unicode core without reporting mode 2027.
+	TermID   string `json:",omitempty"`
+	DA1Class int    `json:",omitempty"`
 }
 
 func (s StyleD) V() vaxis.Style {
@@ -125,6 +130,7 @@ func appCell(cv *termcmd.Conv, l *trace.Interner, c CellD) []int {
 // Run executes a scenario against the real library and returns its events.
 func Run(ctx *Ctx, sc *Scn) (evs []trace.Ev, note string) {
 	caps := responder.FromMask(sc.Mask, sc.Alt)
+	caps.XTVersion, caps.DA1Class = sc.TermID, sc.DA1Class
 	s, err := sess.Start(sess.Config{Caps: caps, Cols: sc.Cols, Rows: sc.Rows})
 	if err != nil {
 		return nil, "start: " + err.Error()
@@ -144,6 +150,9 @@ func Run(ctx *Ctx, sc *Scn) (evs []trace.Ev, note string) {
 		if sc.Mask&(1<<i) != 0 {
 			adv = append(adv, n)
 		}
+	}
+	if sc.TermID == "tmux 3.4" && sc.Mask&(1<<1) == 0 {
+		adv = append(adv, "unicodeCore")
 	}
 	evs = append(evs, trace.Ev{"ev": "reset", "rows": sc.Rows, "cols": sc.Cols, "xw": caps.ExplicitWidth, "adv": adv})
 	evs = append(evs, cv.Feed(s.Startup)...)
@@ -288,11 +297,17 @@ func RandStyle(rng *rand.Rand) StyleD {
 	if rng.Intn(2) == 0 {
 		s.At = uint8(rng.Intn(128)) << 1
 	}
-	switch rng.Intn(8) {
+	switch rng.Intn(12) {
 	case 0:
 		s.Link = "http://a"
 	case 1:
 		s.Link, s.LinkP = "http://b", "id=1"
+	case 2: // the same target under another id: a different hyperlink
+		s.Link, s.LinkP = "http://b", "id=2"
+	case 3: // a target with the separator of the sequence in it
+		s.Link, s.LinkP = "http://c/login;jsessionid=1?x=/y", "id=1"
+	case 4:
+		s.Link = "http://c/login;jsessionid=1?x=/y"
 	}
 	return s
 }
